@@ -68,3 +68,11 @@ def run(ctx):
     frame_align(ctx, prog)
     eod_tail(ctx, prog)
 
+    ctx.rule('PTR-ADVANCE', 'every function in the eight typed read/write slots that works its request off in pieces (a loop decrementing `len`) addresses the caller buffer relative to the running '
+             'offset (ptr + T, ptr [T + k]) or advances the parameter itself: no piece after the first touches the start of the buffer again', floor=150)
+    ctx.rule('READ-STORES', 'every function installed in a read slot uses its buffer parameter (a stub returning a count without storing hands back uninitialised memory)', floor=100)
+    ctx.rule('SLOT-RET', 'no function installed in a typed read/write slot returns a negative constant (the wrappers treat the result as an item count)', floor=200)
+    from engine.ptradvance import ptr_rules
+    na_, ns_ = ptr_rules(ctx, prog)
+    ctx.require(na_ >= 150 and ns_ >= 100, 'too few slot functions / chunk loops found (%d, %d)' % (na_, ns_))
+
